@@ -8,6 +8,8 @@ fn run_cmd(cmd: &str, args: &Args) -> String {
         "doc" => tree::cmd_doc(args),
         "val" => tree::cmd_val(args),
         "docf" => tree::cmd_docf(args),
+        "spanned" => verif_harness::spanned::cmd_spanned(args),
+        "spans" => verif_harness::spans::cmd_spans(args),
         "fuzz" => verif_harness::fuzz::cmd_fuzz(args),
         "depth" => verif_harness::depth::cmd_depth(args),
         "rt" => tree::cmd_rt(args),
